@@ -55,7 +55,9 @@ pub fn from_repr_inner(ast: &DeriveInput) -> syn::Result<TokenStream> {
         // constant is always defined; they just don't get a match arm.
         let disabled = variant.get_variant_properties()?.disabled.is_some();
 
-        let const_var_ident = format_ident!("{}_DISCRIMINANT", variant.ident);
+        // The name must not be one a user would give to a constant of their own: discriminant
+        // expressions are copied into the scope of these constants and may mention such a name.
+        let const_var_ident = format_ident!("__STRUM_FROM_REPR_{}_DISCRIMINANT", variant.ident);
 
         let const_val_expr = match &variant.discriminant {
             Some((_, expr)) => with_visible_groups(expr),
